@@ -378,10 +378,11 @@ func (st *runState) finish(ri *simcheck.RunInfo, sim *simrt.Sim, t0 time.Time, t
 					fmt.Sprintf("req%d %s: the client went away at +%v, the handler returned %v later (allowed %v); result script %+v", r.ID, r.Path, time.Duration(r.Req.CancelUs)*time.Microsecond, late, allow, brief(r.Req.Result)))
 			}
 		}
-		// (once a write has failed because the client is gone nothing the handler sends is a response any more:
-		// net/http drops a late WriteHeader of the error path; only a connected client must see exactly one status)
-		if len(r.Statuses) > 1 && r.WriteErrs == 0 {
-			add("C12", "two-statuses", "handler wrote two statuses: "+r.Req.Kind, fmt.Sprintf("req%d %s wrote %v", r.ID, r.Path, r.Statuses))
+		// a handler that calls WriteHeader again after it began to answer (an error or a recovered panic after
+		// streaming started) has still answered once - net/http drops the late header. C12 asks for a response,
+		// not for a tidy one: counted, not judged.
+		if len(r.Statuses) > 1 {
+			ri.Probes["late-second-writeheader"]++
 		}
 		st.checkDocument(r, add)
 	}
